@@ -20,12 +20,18 @@ type GraphSpec struct {
 // hv is a vertex with an explicit hash code: distinct Go values with the same
 // code are the same vertex to the graph.
 type hv struct {
-	Code int
-	Gen  int
+	Code     int
+	Gen      int
+	SameName bool // all such vertices print alike: identity is the hash code, not the name
 }
 
 func (h *hv) Hashcode() interface{} { return fmt.Sprintf("h%03d", h.Code) }
-func (h *hv) String() string        { return fmt.Sprintf("hv(%d#%d)", h.Code, h.Gen) }
+func (h *hv) String() string {
+	if h.SameName {
+		return "hv"
+	}
+	return fmt.Sprintf("hv(%d#%d)", h.Code, h.Gen)
+}
 
 // sv is a vertex of a type that is not comparable in Go (a slice); it takes its
 // identity from its hash code alone ("a vertex can be anything").
@@ -42,6 +48,8 @@ func vertexOf(kind, i, gen int) graphx.Vertex {
 		return &hv{Code: i, Gen: gen}
 	case 3:
 		return sv{i, gen}
+	case 4:
+		return &hv{Code: i, Gen: gen, SameName: true}
 	}
 	return i
 }
